@@ -17,8 +17,7 @@ def classify(case, rec):
     b = int([t for t in tags if t[0] == "b" and t[1:].isdigit()][0][1:])
     if any(x & (x - 1) for x in coefs):
         preds.add("nondyadic_coefficient")
-    S = [r for r in case["ext"] if r in ("S", "R")][0]
-    halo = b * (case["ext"][S] - 1)
+    halo = max(b * (case["ext"][r] - 1) for r in case["ext"] if r in ("S", "R", "T"))
     if halo > 0 and ("part1" in tags or "part2" in tags):
         preds.add("halo_partition")
     if halo > 0 and "part2" in tags:
@@ -256,7 +255,7 @@ def run(ctx):
     ftdiff.run_project(ctx, rng, 100 * k)
     n = 2 if ctx.tier == "quick" else 3
     recs = pool.collect(ctx, [dict(gen="g4", count=120 * k, modes=["plain"], nexec=n), dict(gen="g4c", count=25 * k, modes=["plain"], nexec=n),
-                              dict(gen="g4n", count=90 * k, modes=["plain"], nexec=n)])
+                              dict(gen="g4n", count=90 * k, modes=["plain"], nexec=n), dict(gen="g5conv2", count=20 * k, modes=["plain"], nexec=n)])
     c02.check_records(ctx, recs, classify=classify, need_reference=False)
     check_model(ctx, recs)
     witnesses(ctx)
